@@ -49,6 +49,34 @@ theorem appendRows_some (rows othr : List Row) (g : Gap) :
   unfold Scaffold.appendRows
   cases rows <;> simp
 
+/-- `append_scaffold(othr, gap)` on the rows, for an arbitrary row object `gap` (Python: `if gap and self.rows: self.add_row(gap)`,
+    then `self.rows.extend(othr.rows)`) -/
+def appendRowsRow (rows othr : List Row) (gap : Option Row) : List Row :=
+  match gap with
+  | some r => if rows.isEmpty then othr else rows ++ [r] ++ othr
+  | none => rows ++ othr
+
+/-- the same, written as the two statements of the Python -/
+theorem appendRowsRow_eq (rows othr : List Row) (gap : Option Row) :
+    appendRowsRow rows othr gap
+      = (match gap with
+         | some r => if rows.isEmpty then rows else rows ++ [r]
+         | none => rows) ++ othr := by
+  unfold appendRowsRow
+  cases gap with
+  | none => rfl
+  | some r => cases rows <;> simp
+
+theorem appendRowsRow_some (rows othr : List Row) (r : Row) :
+    appendRowsRow rows othr (some r) = (if (!rows.isEmpty) = true then rows ++ [r] else rows) ++ othr := by
+  unfold appendRowsRow
+  cases rows <;> simp
+
+/-- with a Gap (or None) it is the model's `appendRows` -/
+theorem appendRowsRow_gap (rows othr : List Row) (g : Option Gap) :
+    appendRowsRow rows othr (g.map Row.gap) = Scaffold.appendRows rows othr g := by
+  cases g <;> rfl
+
 /-! ### qc_sub_fragments -/
 
 /-- the sort key `(frag.start, frag.end)` compared as Python compares tuples is the model's `lexLe` -/
